@@ -505,7 +505,7 @@ class Replay(Policy):
 class SimThread:
     __slots__ = (
         'idx', 'program', 'baton', 'thread', 'finished', 'blocked_on', 'step', 'op_index', 'op_step',
-        'results', 'after_return', 'ret_code', 'frame', 'op_kind', 'in_op', 'op_steps', 'gap_code', 'error'
+        'results', 'after_return', 'ret_code', 'frame', 'op_kind', 'in_op', 'op_steps', 'gap_code', 'error', 'quiet'
     )
 
     def __init__(self, idx, program):
@@ -528,6 +528,7 @@ class SimThread:
         self.op_steps = []
         self.gap_code = None
         self.error = None
+        self.quiet = 0
 
 
 class Sim:
@@ -693,7 +694,7 @@ class Sim:
             return local
 
         def glob(frame, event, arg):
-            if event == 'call' and frame.f_code.co_filename.startswith(prefix):
+            if event == 'call' and not t.quiet and frame.f_code.co_filename.startswith(prefix):
                 if gap_codes:
                     code = frame.f_code
                     for k, v in gap_codes.items():
@@ -722,6 +723,7 @@ class Sim:
                 t.op_kind = self.op_kinds[t.idx][i] if self.op_kinds else 'op'
                 t.in_op = True
                 t.after_return = False
+                t.quiet = 0
                 self.events.append(('op+', t.idx, i, t.op_kind))
                 sys.settrace(tracer)
                 try:
@@ -810,3 +812,37 @@ def _short(e, n=300):
 def _digest(obj):
     import hashlib
     return hashlib.blake2b(repr(obj).encode('utf8', 'backslashreplace'), digest_size=8).hexdigest()
+
+
+class untraced:
+    """Harness bookkeeping inside an operation: frames entered here are not steps (no pre-emption, no faults)."""
+
+    def __enter__(self):
+        sim, t = _cur()
+        self.t = t
+        if t is not None:
+            t.quiet += 1
+        return self
+
+    def __exit__(self, *a):
+        if self.t is not None:
+            self.t.quiet -= 1
+        return False
+
+
+class traced:
+    """A library call made from within an ``untraced`` region."""
+
+    def __enter__(self):
+        sim, t = _cur()
+        self.t = t
+        self.saved = 0
+        if t is not None:
+            self.saved = t.quiet
+            t.quiet = 0
+        return self
+
+    def __exit__(self, *a):
+        if self.t is not None:
+            self.t.quiet = self.saved
+        return False
